@@ -34,10 +34,72 @@ def BOUNDS(tier):
 
 
 def plan(tier, seed):
-    return [dict(key="model/" + e["name"], name=e["name"], seed=seed, tier=tier, cost=e["cost"]) for e in models.catalogue(tier) if e["finite"]]
+    return [dict(key="model/" + e["name"], name=e["name"], seed=seed, tier=tier, cost=e["cost"]) for e in models.catalogue(tier) if e["finite"]] + [
+        dict(key=f"special/{b}.MaterialAD(morph_representative_directions)", special="morph-rd", backend=b, seed=seed, tier=tier, cost=8) for b in ("tt", "jax")]
+
+
+def run_morph_rd(case):
+    """MORPH by representative directions (tensortrax and jax back ends, 84 state variables): objectivity of the stress for the
+    virgin state and for a stored state reached by one earlier increment, Kirchhoff symmetry, stress-free virgin state.
+    (Stress only: the model is not in the shared catalogue because of the cost of its tangent.)"""
+    import felupe as fem
+    import felupe.constitution as C
+
+    warnings.simplefilter("ignore")
+    key = case["key"]
+    viol, nontrivial = [], []
+    ntrans = 0
+    pm = [0.011, 0.408, 0.421, 6.85, 0.0056, 5.54, 5.84, 0.117]
+    if case["backend"] == "jax":
+        import jax
+
+        jax.config.update("jax_enable_x64", True)
+        import felupe.constitution.jax as CJ
+
+        um = CJ.Material(CJ.models.lagrange.morph_representative_directions, p=pm, nstatevars=84)
+    else:
+        um = C.tensortrax.Material(C.tensortrax.models.lagrange.morph_representative_directions, p=pm, nstatevars=84)
+    G = [0.5 * zoo.offarr(case["seed"], 970 + k, (3, 3)) * 2 + np.diag(d_) for k, d_ in enumerate(([0.3, -0.1, 0.0], [0.0, 0.2, -0.15], [-0.2, 0.1, 0.25]))]
+    F = np.ascontiguousarray(np.stack([np.eye(3) + g_ for g_ in G], axis=-1)[..., None])  # (3,3,3,1), non-symmetric
+    n = F.shape[2]
+    rots = zoo.generic_rotations(case["seed"] + 5, 3) + zoo.cube_rotations()[1:4]
+    sv0 = np.zeros((84, n, 1))
+    Fprev = np.ascontiguousarray(np.stack([np.eye(3) + 1.6 * g_ for g_ in G], axis=-1)[..., None])
+    for slab in ("virgin", "after-call"):
+        def state_for(Q):
+            # the stored state of a body that went through the (rotated) earlier increment: the state variables are scalars per
+            # material direction, a superposed rotation leaves them unchanged
+            if slab == "virgin":
+                return sv0
+            return np.asarray(um.gradient([np.einsum("ij,jknq->iknq", Q, Fprev), sv0])[1], float)
+
+        sv = state_for(np.eye(3))
+        P0 = np.asarray(um.gradient([F, sv])[0], float)
+        ntrans += 1
+        sP = max(np.abs(P0).max(), 1e-9)
+        tau = np.einsum("ijnq,kjnq->iknq", P0, F)
+        es = np.abs(tau - tau.transpose(1, 0, 2, 3)).max() / sP
+        if es > 1e-9:
+            viol.append(dict(key=f"{key}/{slab}/kirchhoff-sym", what="Kirchhoff stress P F^T not symmetric", observed=float(es), expected=0, tol=1e-9))
+        for iq, Q in enumerate(rots):
+            svq = state_for(Q)
+            if slab == "after-call" and np.abs(svq - sv).max() > 1e-9 * max(np.abs(sv).max(), 1e-12):
+                viol.append(dict(key=f"{key}/{slab}/state/rot{iq}", what="stored state after the rotated earlier increment differs from the un-rotated one (scalars per material direction)", observed=float(np.abs(svq - sv).max()), expected=0, tol=1e-9))
+            PQ = np.asarray(um.gradient([np.einsum("ij,jknq->iknq", Q, F), svq])[0], float)
+            ntrans += 1
+            e = np.abs(PQ - np.einsum("ij,jknq->iknq", Q, P0)).max() / sP
+            if not e <= 1e-9:
+                viol.append(dict(key=f"{key}/{slab}/objectivity/rot{iq}", what="P(QF) != Q P(F)", observed=float(e), expected=0, tol=1e-9))
+            nontrivial.append(f"{slab}/rot{iq}")
+    PI = np.asarray(um.gradient([np.ascontiguousarray(np.broadcast_to(np.eye(3)[:, :, None, None], (3, 3, n, 1))), sv0])[0], float)
+    if np.abs(PI).max() > 1e-6:
+        viol.append(dict(key=f"{key}/virgin/stress-free", what="undeformed virgin state is not stress free", observed=float(np.abs(PI).max()), expected="<= 1e-6", tol=1e-6))
+    return dict(viol=viol, states=len(nontrivial), transitions=ntrans, traces=len(nontrivial), nontrivial=nontrivial, outcomes=[], sample=dict(case=key, rotations=len(rots)), notes=[], digest=f"{len(nontrivial)}/{len(viol)}")
 
 
 def run(case):
+    if case.get("special") == "morph-rd":
+        return run_morph_rd(case)
     warnings.simplefilter("ignore")
     e = find(case["name"], case["tier"])
     key = case["key"]
